@@ -36,7 +36,8 @@ CONSTANTS Ident,      \* "kitty" | "konsole" | "other"
 ScrW == 8
 ScrH == 5
 Slots == 1..3
-StyleOf(w) == IF w = 3 THEN Style3 ELSE "kitty"
+\* a terminal without graphics support cannot even construct kitty / iterm2 images: block only
+StyleOf(w) == IF Ident = "other" THEN "block" ELSE IF w = 3 THEN Style3 ELSE "kitty"
 NatW(w) == IF w = 2 THEN 2 ELSE 4
 NatH(w) == IF w = 1 THEN 3 ELSE 2
 MaxStrip == 3
